@@ -271,7 +271,7 @@ Theorem qstep_eq w o : QE w -> op_ok2 w o -> QE (fst (fst (fst (qstep w o)))).
 Proof.
   intros HE Hop. pose proof (qstep_inv w o (proj1 HE) (op_ok2_ok w o Hop)) as HI'.
   destruct HE as (HI & HV & HP). split; [exact HI'|]. clear HI'.
-  destruct o as [j|id|id|m|t|n|n|n|f| |id|]; simpl in *.
+  destruct o as [j|id|id|m|t|n|n|n|f| |id| |id]; simpl in *.
   - (* create *)
     set (j' := mkQJ _ _ _ _ _ _ _ _ _). split.
     + apply qv_with_api_set; auto.
@@ -334,6 +334,15 @@ Proof.
       * intros x Hx. apply V1. unfold known in *. simpl in Hx. rewrite app_nil_r in Hx. apply in_or_app. now left.
       * intros x a Hx. apply V3. unfold known in *. simpl in Hx. rewrite app_nil_r in Hx. apply in_or_app. now left.
     + unfold phi_eq. simpl. rewrite Hr, <- acount_filter. lia.
+  - (* touch *)
+    destruct (find_job id (qa_jobs w)) as [a|] eqn:Ef; simpl; [|auto].
+    set (a'' := mkQJ _ _ _ _ _ _ _ _ _) in *.
+    assert (Hd : delta (EUpd a a'') = 0) by (apply delta_upd_same_activity; reflexivity).
+    assert (Ho : owned_active a'' = owned_active a) by reflexivity.
+    destruct (find_job_in _ _ _ Ef) as [_ Hid]. split.
+    + apply qv_with_api_set; auto.
+    + unfold phi_eq in *. unfold with_api. cbn [q_counter qs_pending qc_pending qa_jobs]. rewrite dsum_app.
+      cbn [dsum fold_right]. rewrite acount_set_job by apply HI. change (q_id a'') with (q_id a). rewrite Hid, Ef, Hd, Ho. lia.
 Qed.
 
 Fixpoint run_ok2 (w : qworld) (ops : list qop) : Prop :=
